@@ -85,7 +85,7 @@ def st_values_spec(draw, regimes=REGIMES, max_scale=3.0):
 
 
 @st.composite
-def st_mtree(draw, n_min=1, n_max=5, outliers=False, max_outliers=None, empty_blocks=False, min_clones=0, indices=None):
+def st_mtree(draw, n_min=1, n_max=5, outliers=False, max_outliers=None, empty_blocks=False, min_clones=0, indices=None, n_roots=None):
     """MTree JSON over data indices 0..n-1 (or `indices`), constructed (never rejected)."""
     if indices is None:
         n = draw(st.integers(n_min, n_max))
@@ -105,6 +105,9 @@ def st_mtree(draw, n_min=1, n_max=5, outliers=False, max_outliers=None, empty_bl
     # restricted-growth string -> set partition
     blocks = []
     for i in rest:
+        if n_roots is not None and len(blocks) < n_roots:
+            blocks.append([i])
+            continue
         b = draw(st.integers(0, len(blocks)))
         if b == len(blocks):
             blocks.append([i])
@@ -119,7 +122,10 @@ def st_mtree(draw, n_min=1, n_max=5, outliers=False, max_outliers=None, empty_bl
     order = draw(st.permutations(list(range(k)))) if k > 1 else list(range(k))
     parent = [-1] * k
     for j, b in enumerate(order):
-        p = draw(st.integers(-1, j - 1))
+        if n_roots is not None:
+            p = -1 if j < n_roots else draw(st.integers(0, j - 1))
+        else:
+            p = draw(st.integers(-1, j - 1))
         parent[b] = -1 if p < 0 else order[p]
     mt = MTree(blocks, parent, out)
     if empty_blocks:
